@@ -38,7 +38,20 @@ def tag_of(D):
 
 
 def gnt_cases(E, ctx):
-    D = HM.alpha(ctx.node)
+    n = ctx.node
+    # the shape of a list decides its type without the solver
+    if isinstance(n, ListObj) and n.items is not None:
+        if len(n.items) == 17:
+            return [Case("type", returns=lambda: 3)]
+        if len(n.items) == 2:
+            p, f = HM.hpk_parts(HM.bytes_of(n.items[0]))
+            if z3.is_true(f):
+                return [Case("type", returns=lambda: 1)]
+            if z3.is_false(f):
+                return [Case("type", returns=lambda: 2)]
+    if isinstance(n, bytes) and len(n) == 0:
+        return [Case("type", returns=lambda: 0)]
+    D = HM.alpha(n)
     return [Case("type", returns=lambda: mk_int(tag_of(D)))]
 
 
